@@ -394,7 +394,7 @@ func init() {
 			"the DNN inside LADN elements is opaque octets in both directions (LadnToNas writes it as given)",
 			"TAC and SD text is valid hex of the right size, in lower, upper or mixed case (the octets a hex string denotes do not depend on its case)",
 		},
-		Oracles: map[string]func(*core.Ctx, *core.Case){"cold-concurrent": coldConcurrent, "snssai": c13Snssai, "nssai-decode": c13NssaiDecode, "snssai-element": c13SnssaiElement, "rejected-nssai": c13RejectedNssai, "tailist": c13TaiList, "servicearea": c13ServiceArea, "ladn": c13Ladn, "ladn-indication": c13LadnIndication},
+		Oracles: map[string]func(*core.Ctx, *core.Case){"cold-entries": coldEntries, "cold-concurrent": coldConcurrent, "snssai": c13Snssai, "nssai-decode": c13NssaiDecode, "snssai-element": c13SnssaiElement, "rejected-nssai": c13RejectedNssai, "tailist": c13TaiList, "servicearea": c13ServiceArea, "ladn": c13Ladn, "ladn-indication": c13LadnIndication},
 		Floors: func(tier string, cov map[string]map[string]int64, cnt map[string]int64) []string {
 			var f []string
 			for _, kd := range []string{"snssai", "nssai-decode", "nssai-malformed", "snssai-element", "rejected-nssai", "tailist-1plmn", "tailist-nplmn", "servicearea", "ladn", "ladn-indication"} {
@@ -527,6 +527,7 @@ func init() {
 			}})
 		}
 		us = append(us, coldUnits(tier, "nasConvert", "lists")...)
+		us = append(us, coldEntryUnits(tier, "nasConvert", "lists")...)
 		return us
 	}
 	core.Register(p)
